@@ -776,6 +776,10 @@ def _execute_ts(trace, res, solver, kw, cps):
                         same = np.array_equal(got, want, equal_nan=True) if nn != "power" else np.allclose(got, want, rtol=1e-9, atol=1e-12, equal_nan=True)
                         if len(got) != len(want) or not same:
                             res.violate("C13", "C13/step-not-equal-twin:%s.%s@multinet" % ("power" if nn == "power" else "gas", key), "step %d net %s" % (t, nn), pos)
+                            # C20: "after a coupled ... time series every member net holds the results of a
+                            # stand-alone calculation with the written values"
+                            res.violate("C20", "C20/member-not-equal-twin:%s.%s@timeseries-step" % ("power" if nn == "power" else "gas", key),
+                                        "step %d net %s" % (t, nn), pos)
                 res.oracle_checks += 1
                 res.count("probe:mn-step-equals-twin-checked")
             continue
@@ -799,6 +803,7 @@ def _execute_ts(trace, res, solver, kw, cps):
             return
         if not any(flagged.values()):
             res.violate("C13", "C13/diverged-step-not-reported@multinet,cod=True", "step %d" % t, pos)
+            res.violate("C20", "C20/converged-flag:diverged-member-not-reported@timeseries-step", "step %d" % t, pos)
         # in a failed step the controllers may or may not have acted before the calculation failed:
         # targets of independent couplings are rewritten in the next step, dependent chains may have
         # read a stale value - the model cannot follow those, stop judging
